@@ -7,6 +7,13 @@ import MF.Model.File
 import MF.Model.Split
 import MF.Model.Quote
 import MF.Spec.Lexical
+import MF.Model.Tree
+import MF.Model.Walk
+import MF.Model.TreeParse
+import MF.Gen.Catalog
+import MF.Gen.PosDoc
+import MF.Gen.PosGo
+import MF.Gen.WalkGo
 open MF MF.Lex
 
 def hx (b : Bytes) : String := if b.isEmpty then "-" else toHex b
@@ -37,6 +44,43 @@ def lexRun (buf : Bytes) (noPanic : Bool) : Nat → State → Array String → S
       if s'.tok.kind == .eof then " ".intercalate (acc.push "OK").toList
       else lexRun buf noPanic fuel s' acc
 
+def posTables : Ast.PosTables := ⟨Gen.kinds, Gen.posDoc, Gen.posGo⟩
+
+/-- the recording visitor of the harness: a visitor is the path of Field/Index steps that led to it -/
+def pathVis (prune : Nat) : Ast.Vis String where
+  visit := fun v n => if prune > 0 && n.kind.length % prune == 0 then none else some v
+  visitMany := fun v _ => v
+  field := fun v name => v ++ "." ++ name
+  index := fun v i => v ++ "[" ++ toString i ++ "]"
+
+def fmtEvent : Ast.Event String → String
+  | .visit v n => s!"V|{v}|{n.kind}"
+  | .visitMany v ns => s!"M|{v}|{ns.length}"
+  | .field v name => s!"F|{v}|{name}"
+  | .index v i => s!"I|{v}|{i}"
+
+def fmtPE (doc go : Option (Int × Int)) (pick : Int × Int → Int) : String :=
+  match doc, go with
+  | some d, some g => if pick d == pick g then toString (pick g) else s!"doc={pick d},go={pick g}"
+  | _, some g => s!"docX,go={pick g}"
+  | some d, none => s!"doc={pick d},goX"
+  | none, none => "X"
+
+def treeRun (prune : Nat) (toks : List String) : String :=
+  match Ast.parseNode toks with
+  | none => "BADTREE"
+  | some (root, gvs, rest) =>
+    let nodes := Ast.preorder root
+    let parts := (nodes.zip gvs).map (fun (n, g) =>
+      let d := Ast.docPosEnd posTables n
+      let q := Ast.goPosEnd posTables n
+      s!"{n.kind}:{fmtPE d q (·.1)}:{fmtPE d q (·.2)}:{g.sql}")
+    let evs := match Ast.walk (pathVis prune) Gen.walkGo root "" with
+      | some es => " ".intercalate (es.map fmtEvent)
+      | none => "FUEL"
+    let _ := rest
+    " ".intercalate parts ++ " W " ++ evs
+
 def handle (line : String) : String :=
   match line.splitOn " " with
   | ["LEX", mode, h] =>
@@ -57,6 +101,7 @@ def handle (line : String) : String :=
         | none => "CRASH"
       s!"{hx (Quote.quoteString isPrint buf)} {hx (Quote.quoteBytes buf)} {qi}"
     | _, _ => "BADREQ"
+  | "TREE" :: prune :: toks => treeRun (prune.toNat?.getD 0) toks
   | ["SPEC", h] =>
     match ofHex? (if h == "-" then "" else h) with
     | some buf =>
